@@ -4022,8 +4022,9 @@ class mulgrid(object):
         self.clear_layers()
         justify = ['l', 'r'][self.right_justified_names]
         self.add_layers(thicknesses, top_elevation, justify, chars, spaces)
-        # Preserve old atmosphere layer name:
-        self.rename_layer(self.layerlist[0].name, atm_name)
+        # Preserve old atmosphere layer name (unless a new layer has taken it):
+        if atm_name not in self.layer:
+            self.rename_layer(self.layerlist[0].name, atm_name)
         for col in self.columnlist: self.set_column_num_layers(col)
         self.setup_block_name_index()
         self.setup_block_connection_name_index()
